@@ -27,6 +27,9 @@ pub struct Prog {
     pub nmutex: usize,
     #[serde(default)]
     pub atomics: Vec<i64>,
+    /// indices into `atomics` that are AtomicBool cells (operated on with the b_* operations only)
+    #[serde(default)]
+    pub boolcells: Vec<usize>,
     #[serde(default)]
     pub ncv: usize,
     #[serde(default)]
